@@ -490,8 +490,11 @@ class FlowTranslator(Translator):
       (closure) or, for module functions / methods, to unknown module-level objects;
     * `continue`, `return` inside a loop of an inlined callee, recursion: untranslatable."""
 
-    def __init__(self, fdef, param_signs, assume_true=(), assume_false=(), callees=None, ret_arity=None, split=None, records=None):
+    def __init__(self, fdef, param_signs, assume_true=(), assume_false=(), callees=None, ret_arity=None, split=None, records=None, peel=()):
         super().__init__(fdef, param_signs, assume_true, assume_false)
+        # peel = loop headers (source text `<target> in <iter>`) of `for` loops assumed to run AT LEAST ONCE in the analysed configuration (e.g. n_iter_max >= 1):
+        # translated as block { head; body; loop { head; body } } - a break in the first copy leaves the block, exactly as it would leave the loop
+        self.peel = {h: 0 for h in peel}
         # records = {variable: (field names)}: a CPTensor-like object variable is modelled by one bag per component; x.<field>, x[k] read / write the component,
         # an assignment from a tuple-like value is positional, from anything else every component receives a sub-bag of the value
         self.records = dict(records or {})
@@ -887,6 +890,16 @@ class FlowTranslator(Translator):
                 return self.fassign(s.target, f"(XSub {self.tx(s.iter)})", None)
             head = self.with_prologue(build)
             env = self.child_env(s)
+            hdr = ast.unparse(s.target) + " in " + ast.unparse(s.iter)
+            if hdr in self.peel and not self.scopes:
+                if s.orelse:
+                    raise Untranslatable("for ... else on a loop assumed to run at least once")
+                self.peel[hdr] += 1
+                self.loop_depth += 1
+                first = self.fblock(s.body, env)
+                again = self.fblock(s.body, env)
+                self.loop_depth -= 1
+                return ("block", ("seq", [head, first, ("loop", ("seq", [head, again]))]))
             self.loop_depth += 1
             loop = ("loop", ("seq", [head, self.fblock(s.body, env)]))
             self.loop_depth -= 1
@@ -1037,9 +1050,9 @@ class FlowTranslator(Translator):
             if isinstance(n, ast.Call) and (any(k.arg == "out" for k in n.keywords) or _dotted(n.func) in ("exec", "eval", "setattr", "locals", "vars", "globals")):
                 raise Untranslatable("in-place / reflective call at line " + str(getattr(n, "lineno", "?")))
         tree = self.fblock(self.fdef.body)
-        stale = [a for a, n in list(self.assume.items()) + list(self.assume_f.items()) if n == 0]
+        stale = [a for a, n in list(self.assume.items()) + list(self.assume_f.items()) + list(self.peel.items()) if n == 0]
         if stale:
-            raise Untranslatable("assumed test(s) not found in the source: " + "; ".join(stale))
+            raise Untranslatable("assumed test(s) / loop header(s) not found in the source: " + "; ".join(stale))
         if not self.returns:
             raise Untranslatable("no return statement")
         def names_of(c):
@@ -1106,10 +1119,10 @@ def find_function(tree, fname, cls=None):
     raise Untranslatable(f"function {fname} not found")
 
 
-def translate_flow(source, fname, param_signs, assume_true=(), assume_false=(), callees=None, split=None, records=None):
+def translate_flow(source, fname, param_signs, assume_true=(), assume_false=(), callees=None, split=None, records=None, peel=()):
     """callees: {call name: (source text, function name, class name or None)} -> inlined"""
     tree = ast.parse(source)
     cs = {}
     for k, (src, fn, cls) in (callees or {}).items():
         cs[k] = (find_function(ast.parse(src), fn, cls), False)
-    return FlowTranslator(find_function(tree, fname), param_signs, assume_true, assume_false, cs, split=split, records=records).run()
+    return FlowTranslator(find_function(tree, fname), param_signs, assume_true, assume_false, cs, split=split, records=records, peel=peel).run()
